@@ -1,20 +1,25 @@
 (** * C16 -- reported transform error bounds are true bounds.
-    About the code as it is NOW (after fix: 5455df2 -- translation-free [mul3x3_abs] for the propagated input error --
-    and fix: 34af114 -- gamma(4) for the four roundings of a point row).  The refutations of the former code are kept as
-    theorems about the [_pinned] functions of Model/Pinned.v.
+    About the code as it is NOW (after fix: 5455df2 -- translation-free [mul3x3_abs] for the propagated input error --,
+    fix: 34af114 -- gamma(4) for the four roundings of a point row -- and the fix of the vector functions -- the error of
+    a transformed VECTOR is gamma(3) * [mul3x3_abs], without the translation column that a vector's image never
+    meets).  The refutations of the former code are kept as theorems about the [_pinned] functions of Model/Pinned.v.
     Float tier ([NumB prec emax]: EVERY binary format with at least 8 bits of precision; binary64 and binary32 are
     instances) for (S) soundness and (M) meaningfulness; exact tier (reals) for (R), the ray origin.
     Vocabulary (Proofs/C16_errbound.v): [B2M], [B2V] read the stored floats as reals; [img_pt M x], [img_vec M x] are
     the EXACT images under the stored matrix; [within K ret img err] : |ret_i - img_i| <= K * err_i for i = x,y,z;
     [inbox c e x] : |x_i - c_i| <= e_i; [abs_img M x]_i = sum_j |m_ij x_j|; [abs_trans M]_i = |m_i3|;
-    [first_order g M x e]_i = g * (sum_j |m_ij x_j| + |m_i3|) + sum_j |m_ij e_j|  (the property's first-order worst case);
+    [first_order g M x e]_i = g * (sum_j |m_ij x_j| + |m_i3|) + sum_j |m_ij e_j|  (the property's first-order worst case
+    for a POINT: rounding of the evaluation, which includes the addition of m_i3, plus the input error carried through
+    the linear part);  [first_order_vec g M v e]_i = g * sum_j |m_ij v_j| + sum_j |m_ij e_j|  (the same for a VECTOR,
+    whose image is three products and two additions: no translation term);
     [uro] = 2^-prec (unit roundoff), [gamma3] = 3u/(1-3u) as a real number (the property's yardstick; the point
     functions multiply by gamma(4) = 4u/(1-4u) <= 1.35 gamma3).
     Guards: [fin3 err] -- the REPORTED error components are finite floats (this alone forces every input and every
     intermediate result to be finite: no overflow, no NaN); [affine_last m] -- bottom row exactly (0,0,0,1), the
     C06 invariant of every constructed/composed transform; [safe_prods M x] -- no product m_ij * x_j is non-zero and
     below 2^(emin + 2 prec) (binary64: 2^-968 ~ 4e-292), i.e. no underflow: [C16_S_underflow_refuted] shows that this
-    guard cannot be dropped (finding F9c, still open); [safe_trans M] -- the same for the entries m_i3 (only for (M)).
+    guard cannot be dropped (finding F9c, still open); [safe_trans M] -- the same for the entries m_i3 (only for (M) of
+    the POINT functions; the vector statements have no hypothesis on the translation at all).
     This file contains only statements closed by [exact]. *)
 From Coq Require Import ZArith Reals.
 From Flocq Require Import Core BinarySingleNaN.
@@ -37,8 +42,10 @@ Section C16_float_tier.
   Notation u := (uro prec).
   Notation gamma3 := (gamma3 prec).
 
-  (** (S), vectors: TRUE as stated, no extra factor (three roundings per row, gamma(3); the |m_i3| that [mul4x4_abs]
-      adds only loosens it).  The bound is itself computed in floating point; its roundings are accounted for. *)
+  (** (S), vectors: TRUE as stated, no extra factor, for the translation-free bound gamma(3) * sum_j |m_ij v_j|
+      (three products, two additions: three roundings per row; nothing else to lean on).  The bound is itself
+      computed in floating point; its roundings are accounted for
+      (needs (3+3u+u^2)(1+u)^2(1-3u) <= 3, lemma [poly3]). *)
   Theorem C16_S_vec : forall (m : M4 bf) (v : V3 bf),
     let re := vec_with_error m v in
     fin3 (snd re) -> safe_prods (B2M m) (B2V v) ->
@@ -74,21 +81,33 @@ Section C16_float_tier.
     forall x' : V3 R, inbox (B2V p) (B2V e) x' -> within (1 + 4 * u) (B2V (fst re)) (img_pt (B2M m) x') (B2V (snd re)).
   Proof. exact (S_pt_box prec emax Hprec Hmax Hp8). Qed.
 
-  (** (M) for the four [*_with_error] functions: within a factor 2 of the first-order worst case
-      (points: gamma(4) = 4/3 gamma(3) is inside the factor) *)
+  (** (M) for the two POINT [*_with_error] functions: within a factor 2 of the first-order worst case
+      (gamma(4) = 4/3 gamma(3) is inside the factor; the translation entry is part of a point's evaluation) *)
   Theorem C16_M_with_error : forall (m : M4 bf) (p : V3 bf), safe_prods (B2M m) (B2V p) -> safe_trans (B2M m) ->
-    (fin3 (snd (pt_with_error m p)) -> vle (B2V (snd (pt_with_error m p))) (vscaleR 2 (first_order gamma3 (B2M m) (B2V p) V0))) /\
-    (fin3 (snd (vec_with_error m p)) -> vle (B2V (snd (vec_with_error m p))) (vscaleR 2 (first_order gamma3 (B2M m) (B2V p) V0))).
+    fin3 (snd (pt_with_error m p)) -> vle (B2V (snd (pt_with_error m p))) (vscaleR 2 (first_order gamma3 (B2M m) (B2V p) V0)).
   Proof. exact (M_with_error prec emax Hprec Hmax Hp8). Qed.
 
-  (** (M) for the four [*_propagate_error] functions, WHATEVER the translation *)
+  (** (M) for the two VECTOR [*_with_error] functions: within a factor 2 of gamma3 * sum_j |m_ij v_j| --
+      no translation term in the yardstick and no hypothesis on the translation: WHATEVER its size *)
+  Theorem C16_M_vec_with_error : forall (m : M4 bf) (v : V3 bf), safe_prods (B2M m) (B2V v) ->
+    fin3 (snd (vec_with_error m v)) ->
+    vle (B2V (snd (vec_with_error m v))) (vscaleR 2 (vscaleR gamma3 (abs_img (B2M m) (B2V v)))).
+  Proof. exact (M_vec_with_error prec emax Hprec Hmax Hp8). Qed.
+
+  (** (M) for the two POINT [*_propagate_error] functions, WHATEVER the translation *)
   Theorem C16_M_propagate : forall (m : M4 bf) (p e : V3 bf),
     safe_prods (B2M m) (B2V p) -> safe_prods (B2M m) (B2V e) -> safe_trans (B2M m) ->
-    (fin3 (snd (pt_propagate_error m p e)) ->
-     vle (B2V (snd (pt_propagate_error m p e))) (vscaleR 2 (first_order gamma3 (B2M m) (B2V p) (B2V e)))) /\
-    (fin3 (snd (vec_propagate_error m p e)) ->
-     vle (B2V (snd (vec_propagate_error m p e))) (vscaleR 2 (first_order gamma3 (B2M m) (B2V p) (B2V e)))).
+    fin3 (snd (pt_propagate_error m p e)) ->
+    vle (B2V (snd (pt_propagate_error m p e))) (vscaleR 2 (first_order gamma3 (B2M m) (B2V p) (B2V e))).
   Proof. exact (M_propagate prec emax Hprec Hmax Hp8). Qed.
+
+  (** (M) for the two VECTOR [*_propagate_error] functions: within a factor 2 of
+      gamma3 * sum_j |m_ij v_j| + sum_j |m_ij e_j|; again no translation term, no hypothesis on the translation *)
+  Theorem C16_M_vec_propagate : forall (m : M4 bf) (v e : V3 bf),
+    safe_prods (B2M m) (B2V v) -> safe_prods (B2M m) (B2V e) ->
+    fin3 (snd (vec_propagate_error m v e)) ->
+    vle (B2V (snd (vec_propagate_error m v e))) (vscaleR 2 (first_order_vec gamma3 (B2M m) (B2V v) (B2V e))).
+  Proof. exact (M_vec_propagate prec emax Hprec Hmax Hp8). Qed.
 End C16_float_tier.
 
 (** ** binary64 witnesses (matrices as stored by the real crate for the quoted chains) *)
@@ -114,6 +133,21 @@ Theorem C16_M_pinned_refuted : exists (m : M4 b64) (p e : V3 b64),
   100000000000 * vx (first_order (gamma3 53) (B2M 53 1024 m) (B2V 53 1024 p) (B2V 53 1024 e)) < vx (B2V 53 1024 err).
 Proof. exact M_pinned_refuted. Qed.
 
+(** FORMER code (the translation column added to the error of a transformed VECTOR, [mul4x4_abs] in
+    transform_vec_with_error / inv_transform_vec_with_error): (M) failed for vectors.  [translate(1000,0,0)], vector
+    (1e-9,0,0) -- transformed without any rounding error at all: the reported x error was 3.33e-13 = gamma3 * 1000,
+    10^11 times the first-order worst case gamma3 * 1e-9 = 3.33e-25, and it grows with the translation, whatever the
+    length of the vector: the bound was not meaningful "whatever the size of the translation".  All guards hold,
+    [safe_trans] included. *)
+Theorem C16_M_vec_pinned_refuted : exists (m : M4 b64) (v : V3 b64),
+  let err := snd (@vec_with_error_pinned _ NumB64 m v) in
+  let fo := vscaleR (gamma3 53) (abs_img (B2M 53 1024 m) (B2V 53 1024 v)) in
+  affine_last 53 1024 m /\ fin3 53 1024 err /\ safe_prods 53 1024 (B2M 53 1024 m) (B2V 53 1024 v) /\
+  safe_trans 53 1024 (B2M 53 1024 m) /\
+  ~ vle (B2V 53 1024 err) (vscaleR 2 fo) /\
+  100000000000 * vx fo < vx (B2V 53 1024 err).
+Proof. exact M_vec_pinned_refuted. Qed.
+
 (** CURRENT code, finding F9c (open): without the no-underflow guard (S) fails even for vectors:
     [scale(0.5,1,1)] on (2^-1074,0,0) returns 0 +- 0 *)
 Theorem C16_S_underflow_refuted : exists (m : M4 b64) (v : V3 b64),
@@ -136,8 +170,10 @@ Example C16_former_witnesses_now_pass :
   (let re := @pt_with_error _ NumB64 wS_m wS_p in
    within 1 (B2V 53 1024 (fst re)) (img_pt (B2M 53 1024 wS_m) (B2V 53 1024 wS_p)) (B2V 53 1024 (snd re))) /\
   vle (B2V 53 1024 (snd (@pt_propagate_error _ NumB64 wM_m wM_p wS_e)))
-      (vscaleR 2 (first_order (gamma3 53) (B2M 53 1024 wM_m) (B2V 53 1024 wM_p) (B2V 53 1024 wS_e))).
-Proof. exact (conj S_point_witness_now_sound M_witness_now_meaningful). Qed.
+      (vscaleR 2 (first_order (gamma3 53) (B2M 53 1024 wM_m) (B2V 53 1024 wM_p) (B2V 53 1024 wS_e))) /\
+  vle (B2V 53 1024 (snd (@vec_with_error _ NumB64 wM_m wV_v)))
+      (vscaleR 2 (vscaleR (gamma3 53) (abs_img (B2M 53 1024 wM_m) (B2V 53 1024 wV_v)))).
+Proof. exact (conj S_point_witness_now_sound (conj M_witness_now_meaningful M_vec_witness_now_meaningful)). Qed.
 
 (** ** (R), exact tier: the nudge of the ray origin ([nudge o d e] is the common tail of the four [*_ray*] functions;
     [e] is the reported origin error, non-negative by construction) *)
